@@ -219,6 +219,26 @@ class World {
     return true;
   }
 
+  // the call pattern of MainLoop::executeRead / MqttHandler for "read -p <prio>" (also with an unchanged priority)
+  bool setPrio(int slot, int prio) {
+    if (!m_slot[slot]) return false;
+    bool ret = m_slot[slot]->setPollPriority(static_cast<size_t>(prio));
+    if (ret) m_map->addPollMessage(false, m_slot[slot]);
+    return true;
+  }
+  // (remove and) define message `slot` anew with the given priority
+  bool redefine(int slot, int prio) {
+    if (m_slot[slot]) { m_map->remove(m_slot[slot]); m_slot[slot] = nullptr; }
+    bool ok = readCsv(defLine(slot, prio));
+    rebind();
+    return ok && m_slot[slot] != nullptr;
+  }
+  bool toFront(int slot) {
+    if (!m_slot[slot]) return false;
+    m_map->addPollMessage(true, m_slot[slot]);
+    return true;
+  }
+
   // ---- implementation internals (fingerprint and signature classification only) ----
   // g_lastPollOrder has internal linkage.  It is read through the real code: a message without poll
   // priority that gets one is placed at g_lastPollOrder + priority (Message::setPollPriority), which
